@@ -198,6 +198,51 @@ def l2(ctx):
     return obs
 
 
+# --------------------------------------------------------------------- L9
+@rule('L9', floor=8, title='row identity: no other DELETE runs between reading a row\'s rowid and the write that uses it')
+def l9(ctx):
+    sites = {}
+    for f in core_entries(ctx):
+        if f.cls != 'Cache':
+            continue
+        for p in ctx.paths(f, 'default'):
+            if p.kind == 'cut':
+                continue
+            tr = p.trace
+            for ev in tr:
+                if ev.kind != 'SQL' or not _is_row_write(ev) or ev.d['stmt'] is None:
+                    continue
+                params = ev.d.get('params')
+                if params is None or isinstance(params, V):
+                    continue
+                rowids = [x for x in params if x.k == 'col' and x.a[1] == 'rowid']
+                if not rowids:
+                    continue
+                sel = rowids[0].a[0]
+                k = (f.qual, ev.fn.qual, ev.line, ev.node.col_offset)
+                info = sites.setdefault(k, {'ok': True, 'wit': None, 'ev': ev, 'f': f, 'sig': _stmt_sig(ev.d['stmt'])})
+                for d in tr[sel + 1:ev.seq]:
+                    if d.kind == 'SQL' and d.d['stmt'] is not None and d.d['stmt'].kind == 'delete' and \
+                            (d.d['stmt'].table or '').lower() == 'cache':
+                        dp = d.d.get('params')
+                        same = dp is not None and not isinstance(dp, V) and len(dp) == 1 and dp[0] == rowids[0]
+                        if not same:
+                            info['ok'] = False
+                            info['wit'] = info['wit'] or fmt_trace(tr)
+    obs = []
+    ordinal = {}
+    for k in sorted(sites):
+        info = sites[k]
+        base = '%s/%s' % (info['f'].qual.replace('core.', ''), info['sig'])
+        ordinal[base] = ordinal.get(base, 0) + 1
+        key = base if ordinal[base] == 1 else '%s#%d' % (base, ordinal[base])
+        obs.append(Ob('L9', key, info['ok'],
+                      'between the SELECT that produced the rowid and the write `WHERE rowid = ?` a DELETE on Cache '
+                      'runs that may remove that very row (e.g. the lazy cull of expired rows): the write then matches '
+                      'nothing and the operation silently has no effect', info['ev'].fn.loc(info['ev'].node), info['wit']))
+    return obs
+
+
 # --------------------------------------------------------------------- L4
 SLEEP_NAMES = {'time.sleep'}
 USER_CALLEES = {'func', 'sleep_func'}
